@@ -8,7 +8,7 @@ from .. import core, e1run, forest
 MOD = "mc.props.c20"
 P2 = ("_pre_detach", "_pre_attach")
 CFG = {"read": False, "nonnode": True, "extras": True}
-NAMES = ("foo", "bar", "name", "__tag__")   # a dunder-named instance attribute is an attribute like any other
+NAMES = ("foo", "bar", "name", "__tag__", "godparent", "target_id")   # a dunder-named instance attribute is an attribute like any other; so is a name that merely contains one of the link's own names (after wave 10)
 MISSING = "<AttributeError>"
 
 
@@ -467,5 +467,5 @@ def run(tier):
     return {"tally": t, "coverage": cov, "known": known,
             "guards": ("link_class_variants", "positional_calls", "writes_through_links", "structural_events", "constructor_kwargs", "sequences", "refusals", "pre_hook_vetoes",
                        "retargets", "refused_writes", "constructor_positions", "equal_value_writes", "none_writes", "long_chain_checks"),
-            "assumptions": ["attribute names {foo, bar, name, baz, nope}; bounded universes", "C03 known findings apply to link nodes "
+            "assumptions": ["attribute names {foo, bar, name, __tag__, godparent, target_id, baz, nope}; bounded universes", "C03 known findings apply to link nodes "
                             "identically (same setter code) and are matched exactly as in C03"]}
